@@ -80,6 +80,8 @@ def _with_common(d, meta=True):
     if meta:
         base['meta'] = include_meta()
     base['num'] = NUMS
+    # 'assign': constructed from other values, then every field assigned
+    base['build'] = st.sampled_from(['direct', 'direct', 'direct', 'assign'])
     return st.fixed_dictionaries(base)
 
 
